@@ -2,13 +2,18 @@
 //! statement of C10 on the implementation.
 use crate::util::*;
 use cipher::generic_array::GenericArray;
-use cipher::{BlockDecrypt, BlockEncrypt};
+use cipher::{BlockDecrypt, BlockEncrypt, NewBlockCipher};
 use threefish_cipher::{Threefish1024, Threefish256, Threefish512};
 
-fn enc_dec(size: usize, key: &[u8], t0: u64, t1: u64, block: &[u8]) -> (Vec<u8>, Vec<u8>) {
+/// `use_new`: construct through `NewBlockCipher::new` (only for the zero tweak, which is what it means)
+fn enc_dec(size: usize, key: &[u8], t0: u64, t1: u64, block: &[u8], use_new: bool) -> (Vec<u8>, Vec<u8>) {
     macro_rules! go {
         ($t:ident) => {{
-            let c = $t::with_tweak(GenericArray::from_slice(key), t0, t1);
+            let c = if use_new && t0 == 0 && t1 == 0 {
+                <$t as NewBlockCipher>::new(GenericArray::from_slice(key))
+            } else {
+                $t::with_tweak(GenericArray::from_slice(key), t0, t1)
+            };
             let mut e = GenericArray::clone_from_slice(block);
             c.encrypt_block(&mut e);
             let mut d = GenericArray::clone_from_slice(block);
@@ -35,6 +40,7 @@ pub fn run(a: &Args) {
     let mut direct_fail: Vec<String> = Vec::new();
     let mut samples: Vec<String> = Vec::new();
     let mut by_size = [0usize; 3];
+    let mut via_new = 0usize;
     let mut distinct = std::collections::HashSet::new();
     for i in 0..count {
         let size = [256usize, 512, 1024][i % 3];
@@ -51,12 +57,40 @@ pub fn run(a: &Args) {
                 0x0f0e0d0c0b0a0908,
             )
         } else {
-            (rng.bytes(n), rng.bytes(n), rng.word64(), rng.word64())
+            // structured words: carry-heavy, single-bit, byte-counting, random
+            let mut gen = |rng: &mut Rng| -> Vec<u8> {
+                let mut v = Vec::with_capacity(n);
+                let style = rng.range(0, 5);
+                for w in 0..n / 8 {
+                    let x: u64 = match style {
+                        0 => rng.word64(),
+                        1 => u64::MAX - rng.range(0, 2),
+                        2 => 1u64 << rng.range(0, 63),
+                        3 => u64::from_le_bytes([8 * w as u8, 8 * w as u8 + 1, 8 * w as u8 + 2, 8 * w as u8 + 3,
+                                                 8 * w as u8 + 4, 8 * w as u8 + 5, 8 * w as u8 + 6, 8 * w as u8 + 7]),
+                        4 => if rng.range(0, 1) == 0 { 0 } else { 0x8000_0000_0000_0000 },
+                        _ => rng.word64() | 0xffff_ffff_0000_0000,
+                    };
+                    v.extend_from_slice(&x.to_le_bytes());
+                }
+                v
+            };
+            let key = gen(&mut rng);
+            let block = gen(&mut rng);
+            let (t0, t1) = match rng.range(0, 5) {
+                0 | 1 => (0, 0), // these are built through NewBlockCipher::new
+                2 => { let t = rng.word64(); (t, t) }
+                3 => (u64::MAX, u64::MAX - rng.range(0, 1)),
+                _ => (rng.word64(), rng.word64()),
+            };
+            (key, block, t0, t1)
         };
-        let (e, d) = enc_dec(size, &key, t0, t1, &block);
+        let use_new = i >= 6 && t0 == 0 && t1 == 0;
+        if use_new { via_new += 1; }
+        let (e, d) = enc_dec(size, &key, t0, t1, &block, use_new);
         // direct statement of the inverse property on the implementation
-        let (_, de) = enc_dec(size, &key, t0, t1, &e);
-        let (ed, _) = enc_dec(size, &key, t0, t1, &d);
+        let (_, de) = enc_dec(size, &key, t0, t1, &e, use_new);
+        let (ed, _) = enc_dec(size, &key, t0, t1, &d, use_new);
         if de != block || ed != block {
             direct_fail.push(format!(
                 "{{\"size\":{},\"key\":{},\"t0\":{},\"t1\":{},\"block\":{},\"D(E(b))\":{},\"E(D(b))\":{}}}",
@@ -68,8 +102,8 @@ pub fn run(a: &Args) {
             distinct.insert((size, key.clone(), t0, t1, block.clone()));
         }
         let js = format!(
-            "{{\"size\":{},\"no_unroll\":{},\"key\":{},\"t0\":{},\"t1\":{},\"block\":{},\"enc\":{},\"dec\":{}}}",
-            size, nu, jstr(&hex(&key)), t0, t1, jstr(&hex(&block)), jstr(&hex(&e)), jstr(&hex(&d))
+            "{{\"size\":{},\"no_unroll\":{},\"ctor\":\"{}\",\"key\":{},\"t0\":{},\"t1\":{},\"block\":{},\"enc\":{},\"dec\":{}}}",
+            size, nu, if use_new { "NewBlockCipher::new" } else { "with_tweak" }, jstr(&hex(&key)), t0, t1, jstr(&hex(&block)), jstr(&hex(&e)), jstr(&hex(&d))
         );
         if (i >= 6 && samples.len() < 3) || i == count - 1 {
             samples.push(js.clone());
@@ -101,13 +135,14 @@ pub fn run(a: &Args) {
     let all: Vec<String> = cases.iter().map(|c| c.1.clone()).collect();
     std::fs::write(format!("{}/cases.json", out), format!("[{}]", all.join(",\n"))).unwrap();
     println!(
-        "{{\"evaluations\":{},\"distinct_nontrivial\":{},\"by_size\":{{\"256\":{},\"512\":{},\"1024\":{}}},\"no_unroll\":{},\"direct_failures\":[{}],\"samples\":[{}]}}",
+        "{{\"evaluations\":{},\"distinct_nontrivial\":{},\"by_size\":{{\"256\":{},\"512\":{},\"1024\":{}}},\"no_unroll\":{},\"constructed_via_new\":{},\"direct_failures\":[{}],\"samples\":[{}]}}",
         count,
         distinct.len(),
         by_size[0],
         by_size[1],
         by_size[2],
         nu,
+        via_new,
         direct_fail.join(","),
         samples.join(",")
     );
